@@ -187,6 +187,31 @@ func init() {
 			return nil
 		},
 		"vsymbolic": func(x *X, fn *ssa.Function, a []Value) Value { return x.B.True() },
+		"vfdWrites": func(x *X, fn *ssa.Function, a []Value) Value {
+			l, _ := x.ghost["fdwrite"].([]Value)
+			return x.c64(uint64(len(l)))
+		},
+		"vfdWrite": func(x *X, fn *ssa.Function, a []Value) Value {
+			l, _ := x.ghost["fdwrite"].([]Value)
+			i := int(x.concretize(a[0].(*T), "vfdWrite index"))
+			if i >= len(l) {
+				x.gopanic("vfdWrite: no such write")
+			}
+			var terms []*T
+			for _, part := range l[i].(Tuple) {
+				sl := part.(Slice)
+				n := int(x.concretize(sl.Len, "written length"))
+				for k := 0; k < n; k++ {
+					terms = append(terms, x.sliceElemTerm(sl, k))
+				}
+			}
+			arr := x.newArray(types.Typ[types.Uint8], len(terms))
+			for k, t := range terms {
+				arr.E[k].(*ScalarLoc).V = t
+			}
+			ln := x.c64(uint64(len(terms)))
+			return Slice{Arr: arr, Off: x.c64(0), Len: ln, Cap: ln}
+		},
 		"vreadvPush": func(x *X, fn *ssa.Function, a []Value) Value { x.ghostAppend("readvq", a[0]); return nil },
 		"vrandPush": func(x *X, fn *ssa.Function, a []Value) Value { x.ghostAppend("randq", a[0]); return nil },
 		"vparam": func(x *X, fn *ssa.Function, a []Value) Value {
@@ -401,7 +426,9 @@ func init() {
 		},
 		ModulePath + "/protocol/transport/tcp.tcpTimeStamp": func(x *X, fn *ssa.Function, a []Value) Value {
 			// millisecond clock: an arbitrary 32-bit reading plus the endpoint's offset
-			return x.B.Add(x.input(x.inputName("tsclock"), 32), a[0].(*T))
+			// (two 16-bit halves: friendlier to the integer back end used for checksum queries)
+			nm := x.inputName("tsclock")
+			return x.B.Add(x.B.Concat(x.input(nm+".hi", 16), x.input(nm+".lo", 16)), a[0].(*T))
 		},
 		ModulePath + "/protocol/transport/tcp.flagString": func(x *X, fn *ssa.Function, a []Value) Value {
 			return x.strConst("<flags>") // only used in log output
@@ -424,6 +451,14 @@ func init() {
 			}
 			x.ghost["readvq"] = q[1:]
 			return Tuple{q[0], Pointer{}}
+		},
+		ModulePath + "/protocol/link/rawfile.NonBlockingWrite": func(x *X, fn *ssa.Function, a []Value) Value {
+			x.ghostAppend("fdwrite", Tuple{a[1]})
+			return Pointer{}
+		},
+		ModulePath + "/protocol/link/rawfile.NonBlockingWrite2": func(x *X, fn *ssa.Function, a []Value) Value {
+			x.ghostAppend("fdwrite", Tuple{a[1], a[2]})
+			return Pointer{}
 		},
 		"internal/abi.NoEscape": func(x *X, fn *ssa.Function, a []Value) Value { return a[0] },
 		"(*" + ModulePath + "/protocol.StatCounter).Increment":   nop,
@@ -664,8 +699,7 @@ func (x *X) assert(c *T, msg, knownID string, sig *T) {
 		return
 	}
 	if x.replaying() {
-		// checked on an earlier path with the same prefix
-		x.addPC(c)
+		// checked on an earlier path with the same prefix (pc implies c wherever it held)
 		return
 	}
 	neg := x.B.Not(c)
@@ -691,11 +725,13 @@ func (x *X) assert(c *T, msg, knownID string, sig *T) {
 		}
 	}
 	// continue under the assertion (later assertions are checked assuming earlier ones)
-	if r != smt.Unsat || open {
-		r3, _ := x.check([]*T{c}, nil)
-		if r3 == smt.Unsat {
-			panic(pathEnd{"infeasible", "path dead after failed assertion"})
-		}
+	if r == smt.Unsat && !open {
+		// pc implies c: adding it would only burden later queries (e.g. checksum equalities)
+		return
+	}
+	r3, _ := x.check([]*T{c}, nil)
+	if r3 == smt.Unsat {
+		panic(pathEnd{"infeasible", "path dead after failed assertion"})
 	}
 	x.addPC(c)
 }
